@@ -72,6 +72,7 @@ pub fn exec(c: &Case, fault: Option<(usize, bool)>) -> (Vec<Step>, usize, String
                             BOp::Finish(f) => match f { Fin::Leave => pb.finish(), Fin::Clear => pb.finish_and_clear(), Fin::Abandon => pb.abandon(), Fin::Msg(m) => pb.finish_with_message(m.clone()), Fin::AbandonMsg(m) => pb.abandon_with_message(m.clone()) },
                             BOp::FinishStyle => pb.finish_using_style(),
                             BOp::Adv(_) => {}
+                            BOp::Iter(_) => {}
                             BOp::Drop => { bars[*k] = None; }
                         }
                     }
